@@ -79,8 +79,11 @@ func listToMsg(msgType wamp.MessageType, vlist []any) (wamp.Message, error) {
 			f.Set(arg)
 			continue
 		}
-		// Cannot directly assign, so try to convert and assign.
-		if arg.Type().ConvertibleTo(f.Type()) {
+		// Cannot directly assign, so try to convert and assign. A number is
+		// not converted to a string: Go would make a one-character string of
+		// it.
+		if arg.Type().ConvertibleTo(f.Type()) &&
+			(f.Kind() != reflect.String || arg.Kind() == reflect.String) {
 			f.Set(arg.Convert(f.Type()))
 			continue
 		}
